@@ -91,4 +91,13 @@ PROPERTIES = {
         "targets": [{"name": "c03_nav_g%d" % g, "src": "c03_navigation.cpp", "mode": "asan", "rapidcheck": True,
                      "flags": ["-DVL_GROUP=%d" % g, '-DVERIF_TARGET_NAME="c03_nav_g%d"' % g], "subtargets": ["nav"], "group": g} for g in range(4)],
     },
+    "C04": {
+        "level": "exploration",
+        "assumptions": [
+            "source and destination have equal dimensions (asserted precondition) and do not overlap",
+            "functors given to for_each/generate/transform are the harness's own; order is observed through the values they write",
+        ],
+        "targets": [{"name": "c04_algo_g%d" % g, "src": "c04_algorithms.cpp", "mode": "asan", "rapidcheck": True,
+                     "flags": ["-DC04_GROUP=%d" % g, '-DVERIF_TARGET_NAME="c04_algo_g%d"' % g], "subtargets": ["algo"], "group": g} for g in range(8)],
+    },
 }
